@@ -1,4 +1,5 @@
 import SSVerif.Model.Lattice
+import SSVerif.Model.LogConfigs
 import Driver.Util
 /-! driver sub-command `c11` (serves C11 and C12): reads dumped lattices (plus the search FSG, the
 first-best segmentation and the history table), runs the verified checker `latticeOKB`, validates a
@@ -19,6 +20,8 @@ structure St where
   haveSegs : Bool := false
   hist : Array HEntry := #[]
   build : Option (Nat × Nat × Nat × Nat × Int × Int × List Nat) := none
+  scaled : Array Int := #[]
+  endEntries : Array Nat := #[]
   bad : Bool := false
 
 def optNat (z : Int) : Option Nat := if z < 0 then none else some z.toNat
@@ -58,6 +61,17 @@ def report (s : St) (k : Nat) : List String := Id.run do
     out := out ++ [s!"nbest {nb.length}"]
     for p in nb do
       out := out ++ [s!"p {p.score} " ++ sepBy " " (p.nodes.reverse.map toString)]
+    -- integer forward/backward with the decoder's log-add table
+    if s.scaled.size = L.links.length ∧ L.links.length > 0 then
+      let lm := SSVerif.LogAdd.cfgDec.lm
+      let sc : Link → Int := fun l => s.scaled.getD (L.links.idxOf l) 0
+      let P : IntParams := { ladd := SSVerif.LogAdd.logAdd lm, lz := lm.zero, sc := sc }
+      let al := alphaInt P L
+      let be := betaInt P L
+      let ents := s.endEntries.toList.map fun i => L.links.getD i default
+      out := out ++ ["alpha " ++ sepBy " " (L.links.map fun l => toString (al l)),
+                     "beta " ++ sepBy " " (L.links.map fun l => toString (be l)),
+                     s!"norm {normInt P al ents}"]
   else out := out ++ ["traverse skipped"]
   match s.build with
   | none => out := out ++ ["built skipped"]
@@ -113,6 +127,14 @@ def step (s : St) (ws : List String) : St × List String :=
     | some (frame :: wS :: wE :: silWord :: silpen :: fillpen :: fillers) =>
       ({ s with build := some (frame.toNat, wS.toNat, wE.toNat, silWord.toNat, silpen, fillpen, fillers.map Int.toNat) }, [])
     | _ => ({ s with bad := true }, [])
+  | "c" :: rest =>
+    match ints rest with
+    | some xs => ({ s with scaled := xs.toArray }, [])
+    | none => ({ s with bad := true }, [])
+  | "e" :: rest =>
+    match ints rest with
+    | some xs => ({ s with endEntries := (xs.map Int.toNat).toArray }, [])
+    | none => ({ s with bad := true }, [])
   | ["run", k] =>
     if s.bad then ({}, ["bad-input", "end"]) else ({}, report s ((parseNat k).getD 0))
   | _ => (s, [])
